@@ -158,6 +158,9 @@ func sameKind(i ssa.Instruction, kind string) bool {
 	case "div0":
 		_, ok := i.(*ssa.BinOp)
 		return ok
+	case "conv":
+		_, ok := i.(*ssa.SliceToArrayPointer)
+		return ok
 	case "assert-type":
 		_, ok := i.(*ssa.TypeAssert)
 		return ok
